@@ -2,7 +2,10 @@
 
 package perturb
 
+import "time"
+
 // Without the verif tag the engine has no hook points: perturbation is a no-op.
 func Hits() map[string]int64                                    { return map[string]int64{} }
 func Install(seed uint64, intensity int, sites map[string]bool) {}
 func Remove()                                                   {}
+func Hold(site string, d time.Duration)                         {}
